@@ -41,6 +41,24 @@ Definition ut_distinct_ok (i : N) : bool :=
                                        | _, _ => true end)) (range 32).
 Lemma ut_distinct_sweep : forallb ut_distinct_ok (range 32) = true. Proof. vm_compute. reflexivity. Qed.
 
+(* PartialEq on unit types: for_id a == for_id b exactly when a = b (key 32a+b of the dumped table) *)
+Definition uteq_ok (k : N) : bool :=
+  match lookup k impl_uteq with
+  | Some (Some e) => Bool.eqb e (k / 32 =? k mod 32)
+  | _ => false
+  end.
+Lemma uteq_sweep : forallb uteq_ok (range 1024) = true. Proof. vm_compute. reflexivity. Qed.
+
+Lemma unit_type_eq : forall a b, a < 32 -> b < 32 -> lookup (32 * a + b) impl_uteq = Some (Some (a =? b)).
+Proof.
+  intros a b Ha Hb. assert (Hk : 32 * a + b < 1024) by lia.
+  pose proof (forall_range uteq_ok 1024 uteq_sweep (32 * a + b) Hk) as H. unfold uteq_ok in H.
+  destruct (lookup (32 * a + b) impl_uteq) as [[e|]|]; try discriminate.
+  replace ((32 * a + b) / 32) with a in H by (apply (N.div_unique _ 32 a b); lia).
+  replace ((32 * a + b) mod 32) with b in H by (apply (N.mod_unique _ 32 a b); lia).
+  apply Bool.eqb_prop in H. subst e. reflexivity.
+Qed.
+
 Lemma unit_type_roundtrip : forall id, id < 256 ->
   (id < 32 -> exists nm, lookup id impl_ut = Some (Some (Some (id, nm)))) /\
   (32 <= id -> lookup id impl_ut = Some (Some None)).
